@@ -413,4 +413,118 @@ theorem scan_render (ts : List (RK × List Char)) (h : ∀ t ∈ ts, Reads t.1 t
   have := scanLoop_render ts ((render ts).length + 1) [] h (Nat.le_refl _)
   simpa [scanAll] using this
 
+/-! ### a written token stream WITH line breaks is read back, flags included -/
+
+/-- a raw token as the formatter writes it: starts a new line?, kind, text -/
+structure WTok where
+  nl : Bool
+  k  : K
+  w  : List Char
+
+def sepOk2 (r : List Char) : Prop := r = [] ∨ (∃ r', r = ' ' :: r') ∨ (∃ r', r = '\n' :: r')
+
+/-- `w` is read as the token `(k, w)` in front of a blank, a line feed or the end -/
+def Reads2 (k : K) (w : List Char) : Prop :=
+  (∃ c w', w = c :: w' ∧ isWS c = false) ∧ ∀ r, sepOk2 r → next (w ++ r) = .tok (.tok k) w r
+
+/-- the text: every token behind a blank, or behind a line feed if it starts a line -/
+def layout : List WTok → List Char
+  | [] => []
+  | t :: ts => (if t.nl then '\n' else ' ') :: (t.w ++ layout ts)
+
+theorem layout_sepOk2 (ts : List WTok) : sepOk2 (layout ts) := by
+  cases ts with
+  | nil => exact Or.inl rfl
+  | cons t ts =>
+    cases h : t.nl
+    · exact Or.inr (Or.inl ⟨t.w ++ layout ts, by simp [layout, h]⟩)
+    · exact Or.inr (Or.inr ⟨t.w ++ layout ts, by simp [layout, h]⟩)
+
+/-- the raw tokens with the lines the scanner gives them -/
+def withLines : Nat → List WTok → List RTok
+  | _, [] => []
+  | l, t :: ts => { k := .tok t.k, text := t.w, line := l + (if t.nl then 1 else 0) } :: withLines (l + (if t.nl then 1 else 0)) ts
+
+theorem scanLoop_layout : ∀ (ts : List WTok) (f l : Nat) (acc : List RTok),
+    (∀ t ∈ ts, Reads2 t.k t.w) → (layout ts).length + 1 ≤ f →
+    scanLoop f l (layout ts) acc = .ok (acc.reverse ++ withLines l ts)
+  | [], f, l, acc, _, hf => by
+    cases f with
+    | zero => simp at hf
+    | succ f => simp [layout, scanLoop, skipWS, next, cur, isNul, withLines]
+  | t :: ts, f, l, acc, h, hf => by
+    cases f with
+    | zero => simp at hf
+    | succ f =>
+      obtain ⟨⟨c, w', hw, hc⟩, hr⟩ := h t (by simp)
+      have hn := hr (layout ts) (layout_sepOk2 ts)
+      have hsk : skipWS ((if t.nl then '\n' else ' ') :: (t.w ++ layout ts)) = ((if t.nl then 1 else 0), t.w ++ layout ts) := by
+        rw [hw]
+        cases t.nl
+        · have h1 : isWS ' ' = true := by decide
+          simp [skipWS, h1, hc]
+        · have h1 : isWS '\n' = true := by decide
+          simp [skipWS, h1, hc]
+      have ih := scanLoop_layout ts f (l + (if t.nl then 1 else 0)) ({ k := .tok t.k, text := t.w, line := l + (if t.nl then 1 else 0) } :: acc)
+        (fun t' ht => h t' (by simp [ht])) (by simp [layout] at hf ⊢; omega)
+      have hl : (layout ts).length < (t.w ++ layout ts).length := by rw [hw]; simp; omega
+      simp only [layout, scanLoop, hsk, hn, hl, ite_true, ih, withLines]
+      simp
+
+def toTok (t : WTok) : Tok := { k := t.k, s := String.ofList t.w, nl := t.nl, cm := false }
+
+theorem noCm (l x : Nat) (ts : List WTok) :
+    (match withLines l ts with
+      | n :: _ => (n.k == RK.comment || n.k == RK.document) && n.line == x
+      | [] => false) = false := by
+  cases ts with
+  | nil => simp [withLines]
+  | cons u us => simp [withLines]
+
+theorem toToks_withLines : ∀ (ts : List WTok) (l : Nat), toToks l (withLines l ts) = ts.map toTok
+  | [], _ => by simp [withLines, toToks]
+  | t :: ts, l => by
+    cases hnl : t.nl
+    · have ih := toToks_withLines ts l
+      simp only [withLines, hnl, toToks, List.map_cons, toTok]
+      simp [ih]; cases ts <;> simp [withLines]
+    · have ih := toToks_withLines ts (l + 1)
+      simp only [withLines, hnl, toToks, List.map_cons, toTok]
+      simp [ih]; cases ts <;> simp [withLines]
+
+/-- THE FORMATTED TEXT IS READ BACK AS THE TOKENS THAT WERE WRITTEN, line-break flags included: a token stream whose
+first token starts a line and whose tokens are each read back in front of a blank / a line feed / the end, laid out with
+one blank or one line feed in front of every token, scans to exactly that stream (kinds, texts, `nl` flags; no comment
+flags, nothing lost, nothing invented). -/
+theorem scan_layout (t : WTok) (ts : List WTok) (h : ∀ u ∈ t :: ts, Reads2 u.k u.w) (h1 : t.nl = true) :
+    ∃ rs, scanAll (layout (t :: ts)) = .ok rs ∧ toToks 0 rs = (t :: ts).map toTok := by
+  have hs := scanLoop_layout (t :: ts) ((layout (t :: ts)).length + 1) 1 [] h (Nat.le_refl _)
+  refine ⟨withLines 1 (t :: ts), by simpa [scanAll] using hs, ?_⟩
+  have ih := toToks_withLines ts 2
+  simp only [withLines, h1, toToks, List.map_cons, toTok]
+  simp [ih]; cases ts <;> simp [withLines]
+
+/-- single-rune tokens are read back in front of anything -/
+theorem reads2_single (c : Char) (k : K) (hs : single c = some k)
+    (h1 : isNul c = false) (h2 : (c.toNat == 47) = false) (h3 : (c.toNat == 46) = false) (h4 : (c.toNat == 64) = false)
+    (h5 : (c.toNat == 34 || c.toNat == 96) = false) (hw : isWS c = false) : Reads2 k [c] := by
+  refine ⟨⟨c, [], rfl, hw⟩, ?_⟩
+  intro r _
+  simp [next, cur_cons, h1, h2, h3, h4, h5, hs]
+
+theorem reads2_ident (c : Char) (w : List Char) (hc : isIdL c = true) (hw : ∀ x ∈ w, identChar x = true)
+    (hi : c :: w ≠ interfaceWord) : Reads2 .IDENT (c :: w) := by
+  refine ⟨⟨c, w, rfl, ?_⟩, ?_⟩
+  · simp only [isIdL, isLetter, Bool.or_eq_true, Bool.and_eq_true, decide_eq_true_eq, beq_iff_eq] at hc
+    simp [isWS]; omega
+  · intro r hr
+    apply ident_roundtrip c w r hc hw
+    · intro x r' e
+      rcases hr with rfl | ⟨r'', rfl⟩ | ⟨r'', rfl⟩
+      · cases e
+      · cases e; decide
+      · cases e; decide
+    · intro h; exact hi h.1
+
+
 end GoZero.C20.Scan
